@@ -59,14 +59,12 @@ def make_ctx(rng):
 def random_program(rng):
     g = TypedGen(rng, max_depth=rng.choice([2, 3, 4]))
     g.scope = dict(SCOPE)
+    g.map_ranges = False     # order-insensitive forms only (the property's own carve-out)
     t = rng.choice([('list', 'int'), ('list', 'string'), 'string', 'int', 'bool', ('list', ('list', 'int'))])
     e = g.gen(t, g.max_depth)
     try:
         src = render_min(e)
     except ValueError:
-        return None
-    # order-insensitive forms only: no macro ranging over a map whose result keeps the order
-    if '}.map(' in src or '}.filter(' in src or 'm.map(' in src or 'm.filter(' in src:
         return None
     return src
 
